@@ -15,31 +15,35 @@ from tools.lib import core
 PROP = 'C12'
 
 MANIFEST = dict(
-    technique='Coq proof (induction over run histories / target lists) about a file-system state machine whose overwrite gate, '
-              'SetFileMode and per-file call skeletons are translated from the Python source on every run; extracted-model vs. '
-              'real nnvg correspondence on random run histories',
-    text='Theorems in coq/theories/Properties/C12.v over fs = path -> option (content id, mode, owner, is-dir) with an explicit '
-         'superuser flag: after ANY history of runs from ANY start state a successful non-dry run with at least one SetFileMode '
-         'leaves every target with the canonical content id and the requested mode (regen_canonical, = the run into the empty '
-         'directory: regen_equals_fresh), paths that are not targets keep content and mode in every run, failed or not '
-         '(foreign_untouched, history_foreign), with --no-overwrite no pre-existing entry changes and the run ends in the '
-         'overwrite error iff a target existed (no_overwrite_safe, no_overwrite_error_iff), overwriting runs over owned regular '
-         'files succeed for unprivileged users too, read-only or not, after any history (regen_total_history), all three writers '
-         '(type file, support template, copied support file) start with the same gate (same_gate). Without SetFileMode (API only) '
-         'the mode claim is refuted by witness (mode_without_setfilemode_refuted) and the content claim still holds. Tie: '
-         '_handle_overwrite, SetFileMode.__call__, the call order of _generate_code/_copy_header/_copy_header_using_line_pps/'
-         '_generate_header/_generate_type, the phase order of ArgparseRunner._generate and the post-processor list of the CLI are '
-         're-translated from /repo on every run (proofs re-checked); the hand-written primitives (chmod/open/shutil.copy semantics) '
-         'and the whole step function are tied by running the extracted model and real `python -m nunavut` invocations on the '
-         'same random histories (snapshots of sha256 + st_mode after every step) and by the property oracle against fresh runs.',
-    note='Trusted: Coq kernel; the C12 translator (tools/translators/gen_c12.py); the POSIX semantics written in Gen/RegenBase.v '
-         '(validated, not verified); extraction + OCaml driver. The sandbox runs as root (permission bits not enforced): plain '
-         'histories are tied with superuser=true; the superuser=false half is proved and tied through a harness-side shim that '
-         'replaces the kernel permission check for open/mkdir/chmod inside the real generator process (tools/harness/c12_impl.py). '
-         'SupportGenerator._copy_header is reachable only with a non-template support resource, which no language of this tree '
-         'ships: the harness offers one through Language.get_support_files. A directory sitting at the target of such a copied '
-         'file is excluded from the tie (shutil.copy copies into it and the run reports success; the model says EISDIR). Not covered: content when rendering raises midway '
-         '(partial file), --pp-run-program, concurrent runs, directory mode changes by third parties between runs.',
+    technique='Coq proof (induction over histories of complete and interrupted runs / target lists / directory chains) about an '
+              'output-tree state machine whose overwrite gate, SetFileMode, per-file call skeletons, phase order, support decision '
+              'and support selection are translated from the Python source on every run; extracted-model vs. real nnvg '
+              'correspondence on random histories including killed runs',
+    text='Theorems in coq/theories/Properties/C12.v over tree = path -> option (content id, mode, owner, file|directory) with env = '
+         'superuser flag, umask, ancestors, child. Under the NAMED premise render_independent (text depends on (class, path) only: '
+         'C10/C07) and env_wf: after ANY history of runs and crashes from ANY start tree a successful non-dry run with a SetFileMode '
+         'leaves every target equal to the run into the empty directory (regen_equals_fresh, regen_canonical, '
+         'regen_content_canonical; no exclusion: since fix 7df01dd a directory at the path of any file to generate makes the run '
+         'fail and is never written into or chmod-ed: directory_at_target_fails, directory_kept). Every entry '
+         'that changes is a target or a newly created directory above a target '
+         '(written_in_footprint; targets_derived for every --generate-support/--omit value; targets_distinct_from_c11 from C11\'s '
+         'derived list); existing foreign entries never change (foreign_untouched, history_foreign, foreign_dirs_only; the '
+         'unconditional round-2 form is refuted: foreign_unconditional_refuted). --no-overwrite changes nothing that exists and '
+         'never accepts a conflict (no_overwrite_safe(_history), no_overwrite_conflict_fails). Overwriting runs succeed for '
+         'unprivileged users after any history of skeleton-compatible configurations (regen_total_history). Crash points: '
+         'interrupted_then_rerun_equals_fresh, interrupted_then_rerun_succeeds, interrupted_touches_only_footprint, '
+         'no_overwrite_after_crash. same_gate, dry_run_inert, cli_setfilemode_last. Tie: translator + make on every run; '
+         'extracted model vs. real `python -m nunavut` on random histories (sha256 + st_mode of files AND directories after every '
+         'step), killed runs injected at three points of a file write; property oracle against fresh runs.',
+    note='Trusted: Coq kernel; the C12 translator (tools/translators/gen_c12.py, name allow-list of file-system calls over the scanned '
+         'functions); the POSIX semantics written in Gen/RegenBase.v (validated, not verified; owner/other classes only, search '
+         'permission not modelled); extraction + OCaml driver. Premises not proved here: render_independent (C10/C07), compatible '
+         '(frozen directory skeleton; paths are opaque), c11_targets_distinct (C11). The sandbox runs as root: plain histories are '
+         'tied with superuser=true; superuser=false is proved and tied through a harness-side shim replacing the kernel permission '
+         'check inside the real generator process. SupportGenerator._copy_header is reachable only with a non-template support '
+         'resource, which no language of this tree ships: the harness offers one through Language.get_support_files. The corner of '
+         'the former finding F-COPY-INTO-DIR (fixed) is exercised in every run and must be refused. Not covered: '
+         '--pp-run-program (not representable in filepp), concurrent runs, third parties changing the tree between runs.',
     design='§5 C12')
 
 DSDL = {
@@ -235,8 +239,8 @@ def gen_history(rng, mode: str, pool: typing.List[dict], fresh: Fresh, max_len: 
     for n in rng.sample(FOREIGN_NAMES, rng.choice([0, 1, 2, 3])):
         pre.append({'path': n, 'kind': 'file', 'content': 'foreign %d\n' % rng.randrange(3), 'mode': rng.choice(PRE_MODES), 'owned': True})
         used.add(n)
-    # a directory at the target of a *copied* support file is outside the tie: shutil.copy then copies INTO the directory (the
-    # model's fs_copy says EISDIR); see design_notes/C12.md "Not covered"
+    # a directory at the target of a copied support file was the corner of F-COPY-INTO-DIR (fixed by 7df01dd); it is generated
+    # like any other directory at a target
     copy_targets = {p for c in classes for p, k in fresh.get(c)['describe']['support'] if not k}
     if all_targets and rng.random() < 0.10:
         t = rng.choice(all_targets)
@@ -263,7 +267,7 @@ def gen_history(rng, mode: str, pool: typing.List[dict], fresh: Fresh, max_len: 
         for st in steps:
             d = fresh.get(classes[st['cls']])['describe']
             tg = active_targets(d)
-            if tg and rng.random() < 0.15:
+            if tg and rng.random() < 0.25:
                 idx = rng.randrange(len(tg))
                 kinds = dict((p, k) for p, k in d['support'])
                 plain_copy = kinds.get(tg[idx], True) is False and not d['line_pps'][0]
@@ -473,8 +477,9 @@ def compare_model(h, fresh, impl, msteps, uni, foreign, keys) -> typing.Optional
                 okc = foreign[cid - 1] == e[1]
             else:
                 cl = cls_of_key[keys[(cid - GEN_BASE) // 10000 - 1]]
-                src_rel = rel[:-len(EXTRA_NAME) - 1] if rel.endswith('/' + EXTRA_NAME) else rel   # shutil.copy into a directory
-                okc = uni[(cid - GEN_BASE) % 10000 - 1] == rel and fresh.matches(cl, src_rel, e)
+                src = uni[(cid - GEN_BASE) % 10000 - 1]
+                # shutil.copy into a directory: the text of target src is at src/<resource name>
+                okc = (src == rel or rel == src + '/' + EXTRA_NAME) and fresh.matches(cl, src, e)
             if not okc:
                 return {'step': i, 'what': 'content', 'path': rel, 'model': m, 'impl': e[:3]}
         extra = [rel for rel, e in real['snap'].items() if rel != '.' and rel not in uni]
@@ -644,7 +649,14 @@ def main(chk: core.Check, replay: typing.Optional[str] = None) -> int:
         for i in range(n_hist):
             mode = ['plain', 'plain', 'plain', 'shim', 'nonroot', 'nonroot'][i % 6]
             ml = max_len if (quick or i % 4 == 0) else 8
-            hs.append(gen_history(rng, mode, pool, fresh, ml, dir_at_copy_ok=kf_live))
+            hs.append(gen_history(rng, mode, pool, fresh, ml, dir_at_copy_ok=True))
+        if True:      # the corner of the former finding F-COPY-INTO-DIR (fixed by 7df01dd): must now be refused, always exercised
+            for mode in ('shim', 'nonroot'):
+                hs.append({'mode': mode, 'classes': [pool[1]], 'rodirs': [],
+                           'pre': [{'path': 'nunavut/support/extra_helper.hpp', 'kind': 'dir', 'mode': 0o755, 'owned': True}],
+                           'steps': [{'cls': 0, 'file_mode': None, 'no_overwrite': False, 'dry_run': False},
+                                     {'cls': 0, 'file_mode': 0o644, 'no_overwrite': True, 'dry_run': False},
+                                     {'cls': 0, 'file_mode': 0o600, 'no_overwrite': False, 'dry_run': False}]})
         if bad_fresh and (not pool or any('SystemExit: 2' not in str(fresh.get(c).get('harness_error')) for c in bad_fresh)):
             broken.append('reference run into an empty directory failed: %s %s' % (class_key(bad_fresh[0]), str(fresh.get(bad_fresh[0]))[:300]))
 
